@@ -12,11 +12,13 @@ def run():
     work = Work(PID)
     thorough = tier() == "thorough"
     n = 5 if thorough else 4
-    mod, cfg = V.write_model(work, "inv", n, LABELS, LABELS, POOLS, ["none", "q1", "q2", "zz"], ["Containment", "ExactlyOnceInOrder", "PoolRules"])
+    labs = ["INV.T", "MUSS.T", "MUSS.F", "KANN.T", "SOLL.T"] if thorough else LABELS        # (one node deeper over 5 labels in the thorough tier)
+    pools = POOLS[:4] if thorough else POOLS
+    mod, cfg = V.write_model(work, "inv", n, labs, labs, pools, ["none", "q1", "q2", "zz"], ["Containment", "ExactlyOnceInOrder", "PoolRules"])
     dump = work.path("v.dump")
     t = run_tlc(mod, cfg, work, dump=dump, timeout=3000)
     res.add_tlc(f"Validation: Containment on every AHB <= {n} nodes with INVALID at every subset of nodes (groups, segments, free text, pool entries)", t)
-    V.replay_dump("C16", dump, res, stride=(80 if thorough else 12))
+    V.replay_dump("C16", dump, res, stride=(40 if thorough else 12))
     dump.unlink()
     V.large_metamorphic("C16", res, 600 if thorough else 60)
     res.coverage["exhaustive"] = False
